@@ -13,6 +13,9 @@ BODYSETS = {
     'zero||zero': ['zero', 'zero'],
     'firex||fire': ['firex', 'fire'],
     'fire||fire||fire': ['fire', 'fire', 'fire'],
+    # threads whose shots do NOT share the drag model (different tables): per-shot derived state that leaks between calculators shows up here
+    'fire||fire(G1)': ['fire', 'fire:G1'],
+    'zero||fire(G1)': ['zero', 'fire:G1'],
 }
 
 
@@ -28,10 +31,12 @@ def shared_world():
 def body(kind, k, sw):
     import py_ballisticcalc as pb
     U = pb.Unit
+    kind, _, own = kind.partition(':')
+    ammo = sw['ammo'] if not own else pb.Ammo(pb.DragModel(0.35, pb.TableG1, U.Grain(150), U.Inch(0.3), U.Inch(1.1)), U.FPS(2400))
 
     def f():
         # own weapon (zeroing legitimately writes it), own calculator; everything else is shared between the threads
-        shot = pb.Shot(pb.Weapon(U.Inch(2 + k), U.Inch(12), U.MOA(4 + 3 * k)), sw['ammo'], look_angle=U.Degree(2 * k), atmo=sw['atmo'], winds=sw['winds'])
+        shot = pb.Shot(pb.Weapon(U.Inch(2 + k), U.Inch(12), U.MOA(4 + 3 * k)), ammo, look_angle=U.Degree(2 * k), atmo=sw['atmo'], winds=sw['winds'])
         c = pb.Calculator(_config={'max_calc_step_size_feet': 0.5 if k != 1 else 0.4})
         if kind == 'fire':
             return ['ok', traj_bits(c.fire(shot, U.Foot(1.0), U.Foot(0.5)).trajectory)]
@@ -233,7 +238,7 @@ def explore(ctx):
             base.run()
             npts = len(base.points)
             idxs = range(npts)
-            if bound == 2 and bs not in ('fire||fire',):
+            if bound == 2 and bs not in ('fire||fire', 'fire||fire(G1)'):
                 bound_here = 1
             else:
                 bound_here = bound
